@@ -396,8 +396,10 @@ class BehavioralRTLIRTypeCheckVisitorL1( bir.BehavioralRTLIRNodeVisitor ):
           node.Type.obj = obj[ int( idx ) ]
           node._is_explicit = True
         else:
+          # Only a Python int element is implicitly sized; a BitsN element
+          # keeps its width
           node._value = int( obj[ int( idx ) ] )
-          node._is_explicit = False if isinstance(node._value, int) else True
+          node._is_explicit = not isinstance( obj[ int( idx ) ], int )
       else:
         node._is_explicit = True
         # The type of the elements carries the object of the FIRST element.
